@@ -65,6 +65,23 @@ KERNELS.append(dict(name="K_fan_ctor", file=F, cxx_name="FanProjData::FanProjDat
                            (r"fan_indices\[ra\]\[a\]\[rb\]\s*= IndexRange<1>\(([^;]*)\);", r"IDX_SET3(ra, a, rb, \1);", 1),
                            (r"(?<![\w>.])grow\(fan_indices\);", "", 1), (r"(?<![\w>.])fill\(0\);", "", 1),
                            (r"(?<![\w>._])(half_fan_size)\b", r"self->\1", (1, 3)), (r"\bmax\(", "K_max_int(", 3), (r"\bmin\(", "K_min_int(", 1)]))
+# apply / un-apply of the three kinds of factors: the if (apply) ... *= F; else ... /= F; statement of apply_block_norm, apply_efficiencies, apply_geo_norm (3D)
+def APPLY(name, cxx, func, factor_re, factor_rep, header_extra):
+    return dict(name=name, file=F, cxx_name=cxx + ": the apply / un-apply statement (statement kernel)", func=func,
+                span=(r"if \(apply\)\s*fan_data\(ra, a, rb, b\) \*=", r"else\s*fan_data\(ra, a, rb, b\) /=[^;]*;"),
+                c_header="void %s(const _Bool apply, const int ra, const int a, const int rb, const int b%s)" % (name, header_extra), loops=0, contract_alias="K_apply_stmt",
+                rules=[(factor_re, factor_rep, 2), (r"fan_data\(ra, a, rb, b\) \*= ([^;]*);", r"K_APPLY_OP(OP_MUL, \1);", 1),
+                       (r"fan_data\(ra, a, rb, b\) /= ([^;]*);", r"K_APPLY_OP(OP_DIV, \1);", 1)])
+
+
+KERNELS += [
+    APPLY("K_apply_block_stmt", "apply_block_norm(FanProjData&, const BlockData3D&, bool)", r"apply_block_norm\(FanProjData& fan_data, const BlockData3D& block_data, const bool apply\)",
+          r"block_data\(([^,;]+),\s*([^,;]+),\s*([^,;]+),\s*([^,;()]+)\)", r"FACT4(\1, \2, \3, \4)", ", const int num_axial_crystals_per_block, const int num_tangential_crystals_per_block"),
+    APPLY("K_apply_eff_stmt", "apply_efficiencies(FanProjData&, const DetectorEfficiencies&, bool)", r"apply_efficiencies\(FanProjData& fan_data, const DetectorEfficiencies& efficiencies, const bool apply\)",
+          r"efficiencies\[(\w+)\]\[(\w+)\] \* efficiencies\[(\w+)\]\[([^\]]+)\]", r"FACT4(\1, \2, \3, \4)", ", const int num_detectors_per_ring"),
+    APPLY("K_apply_geo_stmt", "apply_geo_norm(FanProjData&, const GeoData3D&, bool)", r"apply_geo_norm\(FanProjData& fan_data, const GeoData3D& geo_data, const bool apply\)",
+          r"work\(([^,;]+),\s*([^,;]+),\s*([^,;]+),\s*([^,;()]+)\)", r"FACT4(\1, \2, \3, \4)", ", const int num_transaxial_detectors"),
+]
 # GeoData3D: same pattern (only half of the data stored; the fan is the whole ring: [a, a+N-1])
 GSEL = [(r"\(\*this\)\[([^\]]+)\]\[([^\]]+)\]\[([^\]]+)\]\s*\[([^\]]+)\]", r"GEO_CELL(self, \1, \2, \3, \4)", 1),
         (r"get_min_b\(", "GEO_MIN_B(self, ", 1), (r"(?<![\w>.])num_detectors_per_ring\b", "self->num_detectors_per_ring", 2)]
@@ -126,6 +143,14 @@ def jobs(tier, gen_dir):
         J("lemma_ml_fixed_point/" + k, "h_lemma_fixed_point_" + k, kind="lemma", repl=[k], kernels=[k], backend="sat", min_obligations=1, timeout=900)
     out.append(Job("c20/canary/K_ml_ratio_block3d", HARNESS, "h_K_ml_ratio_block3d", enforce="K_ml_ratio_block3d", kernels=["K_ml_ratio_block3d"], kind="canary",
                    defines={"CANARY_K_ml_ratio_block3d": None}, expect_fail=r"K_ml_ratio_block3d\.postcondition", no_base_flags=True, timeout=300))
+    for (ct, vt, ca, va) in BLOCKS[tier][:6]:
+        J("K_apply_block_stmt/C=%d,%d" % (ct, ca), "h_K_apply_block_stmt", enforce="K_apply_block_stmt", kernels=["K_apply_block_stmt"], min_obligations=2,
+          defs={"APPLY_KIND_block": None, "C20_CT": ct, "C20_CA": ca}, params={"transaxial crystals/block": ct, "axial crystals/block": ca})
+    for N in NS[tier][:6]:
+        for k in ("K_apply_eff_stmt", "K_apply_geo_stmt"):
+            J("%s/N=%d" % (k, N), "h_" + k, enforce=k, kernels=[k], min_obligations=2, defs={"APPLY_KIND_" + k.split("_")[2]: None, "C20_N": N}, params={"num_detectors_per_ring": N})
+    out.append(Job("c20/canary/K_apply_block_stmt", HARNESS, "h_K_apply_block_stmt", enforce="K_apply_block_stmt", kernels=["K_apply_block_stmt"], kind="canary",
+                   defines={"CANARY_K_apply_block_stmt": None, "APPLY_KIND_block": None, "C20_CT": 9, "C20_CA": 9}, backend="kissat", expect_fail=r"K_apply_block_stmt\.postcondition", no_base_flags=True, timeout=300))
     GRD = ["GEO_MIN_B", "GEO_MAX_B", "GEO_RB_MIN", "GEO_RB_MAX"]
     J("K_geo_is_in_data", "h_K_geo_is_in_data", enforce="K_geo_is_in_data", repl=GRD, kernels=["K_geo_is_in_data"])
     J("K_geo_select", "h_K_geo_select", enforce="K_geo_select", repl=GRD, kernels=["K_geo_select"])
@@ -144,7 +169,7 @@ TRUSTED = ["index ranges of FanProjData: the readers FAN_MIN_B/FAN_MAX_B/FAN_RB_
            "(IndexRange<4>::grow / Array::grow deliver the requested ranges: C11)",
            "get_det_pair_for_bin / get_bin_for_det_pair are decided under C01"]
 ASSUMPTIONS = ["parametric: crystals per block / virtual crystals per block are constants per job; crystal and ring numbers < 100000"]
-UNDECIDED_CLAUSES = ["apply/un-apply of efficiencies, geometric and block factors (float products; un-apply restores only up to rounding)",
+UNDECIDED_CLAUSES = ["that dividing by a factor undoes multiplying by it (float rounding); the geometric factors' rotation / mirror map inside apply_geo_norm",
                      "fixed point of iterate_efficiencies, of the make_geo_data / make_block_data sums around the element update, and Kullback-Leibler descent of the ML iterations", "the loops of make_fan_data_remove_gaps_help / set_fan_data_add_gaps_help around the index maps",
                      "BlockData3D / DetPairData classes (same pattern as FanProjData / GeoData3D, not under contract)"]
 
